@@ -4,7 +4,7 @@ import PprofVerif.Spec.Stacks
 import PprofVerif.Spec.StacksAggregate
 import PprofVerif.Model.StacksSelect
 /- Driver operations for C17 (flame-graph stack set).
-   `stacks.model <idx> <profile>`  → `ok <stackset>` | `err` | `panic`, the raw (index based) dump of
+   `stacks.model <trim_path> <source_path> <idx> <profile>`  → `ok <stackset>` | `err` | `panic`, the raw (index based) dump of
         the model's StackSet; the harness canonicalises it with the same function it uses for the
         real StackSet.
    `stacks.frames <idx> <profile>` → `ok <n> {<value> <m> {name file fnID line column inlined}}` | `none`,
@@ -43,17 +43,43 @@ def rdSelProfile : Rd (Str × Profile) := do
   let p ← Rd.profile
   pure (s, p)
 
+def rdOpts : Rd Opts := do
+  let t ← Rd.str
+  let sp ← Rd.str
+  pure ⟨t, sp⟩
+
+def rdOptsIdxProfile : Rd (Opts × Nat × Profile) := do
+  let o ← rdOpts
+  let i ← Rd.nat
+  let p ← Rd.profile
+  pure (o, i, p)
+
+def rdOptsSelProfile : Rd (Opts × Str × Profile) := do
+  let o ← rdOpts
+  let s ← Rd.str
+  let p ← Rd.profile
+  pure (o, s, p)
+
+def rdOptsPath : Rd (Opts × Str) := do
+  let o ← rdOpts
+  let s ← Rd.str
+  pure (o, s)
+
 def rdIdxProfile : Rd (Nat × Profile) := do
   let i ← Rd.nat
   let p ← Rd.profile
   pure (i, p)
 
 def ops : List (String × (List String → String)) := [
-  ("stacks.model", fun ts =>
-    match Rd.run rdIdxProfile ts with
+  ("stacks.trimpath", fun ts =>
+    match Rd.run rdOptsPath ts with
     | none => "bad-op"
-    | some (i, p) =>
-      match stacks p i with
+    | some (o, path) => "ok " ++ Str.toTok (trimPath o path)),
+  ("stacks.model", fun ts =>
+    match Rd.run rdOptsIdxProfile ts with
+    | none => "bad-op"
+    | some (o, i, p) =>
+      match stacks o p i with
       | .ok s => "ok " ++ Wr.render (wStackSet s)
       | .err _ => "err"
       | .panic _ => "panic"),
@@ -73,10 +99,10 @@ def ops : List (String × (List String → String)) := [
       | .err _ => "err"
       | .panic _ => "panic"),
   ("stacks.modelsel", fun ts =>
-    match Rd.run rdSelProfile ts with
+    match Rd.run rdOptsSelProfile ts with
     | none => "bad-op"
-    | some (sel, p) =>
-      match stacksBySel p sel with
+    | some (o, sel, p) =>
+      match stacksBySel o p sel with
       | .ok s => "ok " ++ Wr.render (wStackSet s)
       | .err _ => "err"
       | .panic _ => "panic"),
